@@ -124,9 +124,16 @@ def one_case(rng, res):
     tree = T.gen_tree(rng)
     if rng.random() < 0.35:
         nest_same_names(rng, tree)
+    if rng.random() < 0.3:
+        T.add_order_siblings(rng, tree, rng.randrange(1, 3))
     if rng.random() < 0.6:
         T.add_symlinks(rng, tree, rng.randrange(1, 4))
     starts = gen_starts(rng, tree)
+    if rng.random() < 0.15:
+        # several top-level entries side by side, directories first: "pkg" then "pkg.tar", "src" then "src2"
+        tops = sorted(tree, key=lambda n_: (tree[n_][0] != "d", n_))
+        if len(tops) >= 2:
+            starts = tops[: rng.randrange(2, min(len(tops), 5) + 1)]
     patterns = rng.choice(PATTERNS)
     follow = rng.random() < 0.5
     normalize = rng.random() < 0.3
